@@ -29,6 +29,9 @@ M = [
  ("c06-unfinished-iteration-kept", "src/search.rs", "            // Only update if search completed\n            if !self.timer.should_stop() {", "            // Only update if search completed\n            if true {", ["C06","C03"]),
  ("c07-no-poll-in-quiescence", "src/search.rs", "        for mv in moves {\n            if self.timer.should_stop() {\n                break;\n            }\n", "        for mv in moves {\n", ["C07"]),
  ("c07-no-poll-in-main-loop", "src/search.rs", "        for current_move in moves {\n            if self.timer.should_stop() {\n                break;\n            }\n", "        for current_move in moves {\n", ["C07"]),
+ ("c07-clock-polled-every-64k-nodes", "src/timer.rs", "        if let (Some(start), Some(limit)) = (self.start_time, self.time_limit) {\n            start.elapsed() >= limit\n        } else {\n            false\n        }\n    }\n\n    /// Gets the number of nodes searched", "        if self.nodes_searched % 65536 != 0 {\n            return false;\n        }\n        if let (Some(start), Some(limit)) = (self.start_time, self.time_limit) {\n            start.elapsed() >= limit\n        } else {\n            false\n        }\n    }\n\n    /// Gets the number of nodes searched", ["C07"]),
+ ("c07-real-clock-limit-times-eight", "src/timer.rs", "            start.elapsed() >= limit\n        } else {\n            false\n        }\n    }\n\n    /// Gets the number of nodes searched", "            start.elapsed() >= limit * 8\n        } else {\n            false\n        }\n    }\n\n    /// Gets the number of nodes searched", ["C07"]),
+ ("c07-movetime-times-ten", "src/uci.rs", "time_limit = Some(Duration::from_millis(ms));", "time_limit = Some(Duration::from_millis(ms * 10));", ["C07"]),
  ("c08-no-mate-detection-in-quiescence", "src/search.rs", "        if moves.is_empty() && currently_in_check {\n            return -CHECKMATE_SCORE;\n        }\n", "", ["C08","C05"]),
  ("c08-stalemate-scored-as-mate", "src/search.rs", "        if self.move_generator.is_in_check(board) {\n            // Prefer shorter mates", "        if true {\n            // Prefer shorter mates", ["C08","C05"]),
  ("c09-threshold-one", "src/repetition.rs", "                if count >= 2 {", "                if count >= 1 {", ["C09"]),
